@@ -52,11 +52,13 @@ def write_json(path, obj):
     os.rename(tmp, path)
 
 
-def run(prop, tier="quick", replay=None, root=None, quiet=False):
+def run(prop, tier="quick", replay=None, root=None, quiet=False, shared=None, out=None):
+    """shared: optional dict; the self-test passes one to analyse a scratch copy once for all 20 properties
+    (the registered checks never do: one process, one property, one fresh context)."""
     t0 = time.time()
     seed = int(os.environ.get("VERIF_SEED", "0") or 0)
     meta = load_meta(prop)
-    out = sys.stdout
+    out = out or sys.stdout
     evid = EVID
     if root is not None and os.path.realpath(root) != os.path.realpath(extract.REPO):
         # analysis of a scratch copy (selftest): never touch the real evidence
@@ -83,7 +85,13 @@ def run(prop, tier="quick", replay=None, root=None, quiet=False):
     except extract.ExtractError as e:
         return fail_closed(str(e), e.log or "/verif/.cache/build.log")
     try:
-        ctx = Ctx(facts, info)
+        if shared is not None and shared.get("digest") == info.get("digest") and "ctx" in shared:
+            ctx = shared["ctx"]
+        else:
+            ctx = Ctx(facts, info)
+            if shared is not None:
+                shared["digest"] = info.get("digest")
+                shared["ctx"] = ctx
         ctx.tier = tier
         mod = importlib.import_module("casslint.rules.%s" % prop.lower())
         results = mod.rules(ctx, tier)
